@@ -249,7 +249,8 @@ PROPS["C08"] = dict(
 PROPS["C14"] = dict(
     engine="e2", level="exploration",
     rule="one evaluation = one seeded differential run: a program of 6-30 commands over all families whose arguments carry the run's feature "
-         "set (spaces, empty strings, CR/LF, non-UTF-8 bytes, mixed case, the filtered commands PUBLISH and SUBSCRIBE in every letter case incl. subscribe-then-publish on one channel; a third of the runs plain) is executed through "
+         "set (spaces, empty strings, CR/LF, non-UTF-8 bytes, mixed case, the filtered commands PUBLISH and SUBSCRIBE in every letter case incl. subscribe-then-publish on one channel; a third of the runs plain; 30 % of the runs configure 2-4 numbered databases on the nodes and on the reference and interleave SELECT with "
+         "valid, out-of-range and malformed indexes, the final comparison covering every database) is executed through "
          "a standalone Manager.ExecCommand and through a simulated 1-node or 3-node cluster, fault-free or with message drops/reordering and a "
          "leader isolation; oracle = i-th replies equal (unordered collections as multisets, errors by class) and the final keyspace dump of "
          "every replica equals the standalone dump; non-trivial = at least 3 replies compared; distinct = distinct trace hash",
